@@ -5,9 +5,13 @@
   applied — `append_request` accepts an entry of a newer term at `log_index + 1` without checking that
   the follower's previous entry matches the leader's, and `heartbeat_request` then commits whatever
   prefix the follower holds. Witness: `C28_state_machine_safety_counterexample` (3 nodes, 21 events).
-  Local parts (commit index monotone, committed entries stable): see `Props/C28Local.lean`.
+  Local parts, PROVED over all reachable states and all events (and all event sequences):
+  `C28_commit_monotone` (a node's commit index — raft-level and storage-level — never decreases) and
+  `C28_committed_stable` (an entry that is flagged committed, or lies at an index ≤ the commit index,
+  stays on its node with the same index, term and payload, its committed flag is never cleared, and it
+  remains the only entry at that index). Invariant: `Lemmas/LogInv.lean`, `Lemmas/LogGlobal.lean`.
 -/
-import AgdbRaft.Model.Net
+import AgdbRaft.Lemmas.LogGlobal
 
 namespace Raft
 
@@ -45,5 +49,79 @@ theorem C28_state_machine_safety_counterexample : ¬ C28_state_machine_safety_st
 
 /-- Non-vacuity of the statement's hypotheses: committed entries exist on reachable states. -/
 example : ∃ n ∈ c28State.nodes, ∃ e ∈ n.storage.logs, e.committed = true := by decide +kernel
+
+/-! ## local clauses (proved) -/
+
+theorem reachable_inv28 {g : Global} (h : Reachable Variant.fixed g) : Inv28 g := by
+  induction h with
+  | init size ef hb tt => exact inv28_init size ef hb tt _
+  | step e hr ih => exact (step28 _ e (reachable_inv hr) ih).1
+
+/-- every node after an event sequence is the successor of the node with the same index before it -/
+theorem lstep_run {g : Global} (h : Reachable Variant.fixed g) (evs : List Event) :
+    ∀ n' ∈ (run g evs).nodes, ∃ n ∈ g.nodes, n'.index = n.index ∧ LStep n n' := by
+  induction evs generalizing g with
+  | nil => intro n' hn'; exact ⟨n', hn', rfl, LStep.refl n'⟩
+  | cons e es ih =>
+    intro n' hn'
+    obtain ⟨m, hm, hi, hs⟩ := ih (Reachable.step e h) n' hn'
+    obtain ⟨n, hn, hi', hs'⟩ := (step28 g e (reachable_inv h) (reachable_inv28 h)).2 m hm
+    exact ⟨n, hn, hi.trans hi', hs'.trans hs⟩
+
+theorem pairwise_index_inj {l : List Entry} (h : l.Pairwise (fun a b => a.index < b.index)) {x y : Entry}
+    (hx : x ∈ l) (hy : y ∈ l) (hxy : x.index = y.index) : x = y := by
+  induction l with
+  | nil => cases hx
+  | cons a as ih =>
+    rw [List.pairwise_cons] at h
+    rcases List.mem_cons.mp hx with rfl | hx' <;> rcases List.mem_cons.mp hy with rfl | hy'
+    · rfl
+    · have := h.1 y hy'; omega
+    · have := h.1 x hx'; omega
+    · exact ih h.2 hx' hy'
+
+/-- **C28, clause 3.** Under any sequence of events a node's commit index never decreases
+(`local().log_commit` and `Storage::log_commit()`). -/
+theorem C28_commit_monotone {g : Global} (h : Reachable Variant.fixed g) (evs : List Event)
+    (n : Node) (hn : n ∈ g.nodes) (n' : Node) (hn' : n' ∈ (run g evs).nodes) (hi : n'.index = n.index) :
+    n.loc.logCommit ≤ n'.loc.logCommit ∧ n.storage.commit ≤ n'.storage.commit := by
+  obtain ⟨m, hm, hi', hs⟩ := lstep_run h evs n' hn'
+  have : m = n := eq_of_index_eq (reachable_inv28 h).nodup hm hn (hi'.symm.trans hi)
+  subst this
+  exact ⟨hs.commit, hs.scommit⟩
+
+/-- **C28, clause 2.** Under any sequence of events an entry that is committed on a node (flagged
+committed, or at an index ≤ the node's commit index) is never removed or replaced there: the node
+still holds an entry with the same index, term and payload, still flagged committed if it was, and
+that is the only entry at this index. -/
+theorem C28_committed_stable {g : Global} (h : Reachable Variant.fixed g) (evs : List Event)
+    (n : Node) (hn : n ∈ g.nodes) (n' : Node) (hn' : n' ∈ (run g evs).nodes) (hi : n'.index = n.index)
+    (e : Entry) (he : e ∈ n.storage.logs) (hc : e.committed = true ∨ e.index ≤ n.loc.logCommit) :
+    ∃ e' ∈ n'.storage.logs, e'.index = e.index ∧ e'.term = e.term ∧ e'.data = e.data ∧
+      (e.committed = true → e'.committed = true) ∧
+      ∀ x ∈ n'.storage.logs, x.index = e.index → x = e' := by
+  obtain ⟨m, hm, hi', hs⟩ := lstep_run h evs n' hn'
+  have : m = n := eq_of_index_eq (reachable_inv28 h).nodup hm hn (hi'.symm.trans hi)
+  subst this
+  have hle : e.index ≤ m.loc.logCommit := by
+    rcases hc with hc | hc
+    · exact ((reachable_inv28 h).ok m hm).inv.comLe e he hc
+    · exact hc
+  obtain ⟨e', he', h1, h2, h3, h4⟩ := hs.keep e he hle
+  refine ⟨e', he', h1, h2, h3, h4, ?_⟩
+  intro x hx hxi
+  have hsorted := ((reachable_inv28 (reachable_run h evs)).ok n' hn').inv.sorted
+  exact pairwise_index_inj hsorted hx he' (hxi.trans h1.symm)
+
+/-- single-event forms -/
+theorem C28_commit_monotone_step {g : Global} (h : Reachable Variant.fixed g) (ev : Event)
+    (n : Node) (hn : n ∈ g.nodes) (n' : Node) (hn' : n' ∈ (step g ev).1.nodes) (hi : n'.index = n.index) :
+    n.loc.logCommit ≤ n'.loc.logCommit ∧ n.storage.commit ≤ n'.storage.commit :=
+  C28_commit_monotone h [ev] n hn n' hn' hi
+
+/-- Non-vacuity: on the reachable state `c28State` node 1 holds committed entries and a positive
+commit index, so the hypotheses of both theorems are satisfiable on a non-trivial state. -/
+example : ∃ n ∈ c28State.nodes, n.loc.logCommit = 2 ∧ ∃ e ∈ n.storage.logs, e.committed = true ∧ e.index ≤ n.loc.logCommit := by
+  decide +kernel
 
 end Raft
